@@ -70,8 +70,60 @@ fn run_op(grammar_path: &str, shell: &str, prefix: &str) {
     }
 }
 
+fn fnv64(data: &[u8]) -> u64 {
+    let mut h: u64 = 0xcbf29ce484222325;
+    for b in data {
+        h ^= *b as u64;
+        h = h.wrapping_mul(0x100000001b3);
+    }
+    h
+}
+
+fn run_inline(idx: usize, shell: &str, text: &str) -> String {
+    match compile(text, shell_of(shell)) {
+        Ok((script, dfa, regex)) => format!(
+            "op{idx} ok {:016x} {:016x} {:016x}",
+            fnv64(&script),
+            fnv64(&dfa),
+            fnv64(&regex)
+        ),
+        Err(e) => format!("op{idx} err {:016x}", fnv64(e.as_bytes())),
+    }
+}
+
+/// `--inline [--threads] <shell> <grammar text> [<shell> <grammar text>]...`: no file access at all (Miri keeps
+/// isolation on, so that its seed also decides the bytes getrandom delivers); prints one digest line per operation.
+fn main_inline(args: &[String]) {
+    let threads = args.iter().any(|a| a == "--threads");
+    let rest: Vec<&String> = args.iter().filter(|a| !a.starts_with("--")).collect();
+    let ops: Vec<(String, String)> = rest
+        .chunks(2)
+        .map(|c| (c[0].clone(), c[1].clone()))
+        .collect();
+    let lines: Vec<String> = if threads {
+        let handles: Vec<_> = ops
+            .into_iter()
+            .enumerate()
+            .map(|(i, (s, t))| std::thread::spawn(move || run_inline(i, &s, &t)))
+            .collect();
+        handles.into_iter().map(|h| h.join().unwrap()).collect()
+    } else {
+        ops.iter()
+            .enumerate()
+            .map(|(i, (s, t))| run_inline(i, s, t))
+            .collect()
+    };
+    for l in lines {
+        println!("{l}");
+    }
+}
+
 fn main() {
     let args: Vec<String> = std::env::args().collect();
+    if args.iter().any(|a| a == "--inline") {
+        main_inline(&args[1..]);
+        return;
+    }
     let ops_text = std::fs::read_to_string(&args[1]).expect("ops file");
     let threads = args.iter().any(|a| a == "--threads");
     let ops: Vec<(String, String, String)> = ops_text
